@@ -210,7 +210,7 @@ var plans = map[string]*plan{
 		Thorough:       []batchSpec{{Test: "TestC20", N: 16, Timeout: 60 * m}, {Test: "TestC20BurstClose", N: 4, Timeout: 30 * m}},
 		EvalStats:      []string{"c20.connect_cases", "c20.inbound"},
 		Floors:         map[string]int64{"c20.connect_cases": 27, "c20.sessions": 230, "c20.inbound": 2000, "c20.callbacks_checked": 1000, "c20.burst_close_cases": 38, "classes": 70},
-		FloorsThorough: map[string]int64{"c20.connect_cases": 27, "c20.sessions": 5500, "classes": 150},
+		FloorsThorough: map[string]int64{"c20.connect_cases": 27, "c20.sessions": 5500, "classes": 75},
 		Assumptions:    []string{"PINGREQ/PINGRESP barrier as in C12", "filters with empty levels are not generated here (known finding F-C06-1 covers the matcher)"},
 	},
 	"C16": {
